@@ -44,18 +44,23 @@ def main():
                 sh(["git", "-C", "/repo", "clean", "-fdq", "src", "tests"])
             viol = [l for l in out.splitlines() if l.startswith("VIOLATION")]
             kind, what = "missed", ""
+            broken_names = []
             if viol:
                 kind = "no-input" if "no-failing-input-found" in viol[0] else "concrete"
                 m = re.search(r"replay=(\S+)", viol[0])
                 if m and os.path.exists(m.group(1)):
                     r = json.load(open(m.group(1)))
                     what = r.get("what") or json.dumps(r.get("no_longer_checks", [])[:1])[:200]
+                    # which proof obligations / ties the change broke, independently of the failing input
+                    nl = (r.get("also_broken") or []) + (r.get("no_longer_checks") or [])
+                    broken_names = sorted({(b.get("kind", "") + ":" + re.sub(r" \(.*", "", str(b.get("what", ""))))[:90] for b in nl if isinstance(b, dict)})
                     os.remove(m.group(1))
                     g = m.group(1)[:-5] + ".game"
                     if os.path.exists(g):
                         os.remove(g)
             tally[kind] += 1
-            meta["recheck"] = {"property": pid, "exit": rc, "outcome": kind, "what": what, "wall_s": round(time.time() - t0, 1)}
+            meta["recheck"] = {"property": pid, "exit": rc, "outcome": kind, "what": what, "wall_s": round(time.time() - t0, 1),
+                               "obligations_broken": broken_names if viol else []}
             json.dump(meta, open(mp, "w"), indent=1)
             print(n, pid, kind, what[:100], "%.0fs" % (time.time() - t0), flush=True)
     finally:
